@@ -84,6 +84,37 @@ def run(tier, seed):
                 q["srv"]["reply"]["sel"] = sel
                 q["srv"]["mode"] = "nego"
                 plans.append(q); k += 1
+        # a Connector that connects a second time after being reconfigured behaves as its configuration AT THAT MOMENT says:
+        # nothing of the first connection (authentication context, mode, credentials) may survive into the second
+        nla_plans = [p for p in conn.last_mode_plans if p["cfg"]["nla"] and p["srv"]["reply"]["sel"][0] == 2 and not p["cfg"]["admin"] and not p["cfg"]["blank"] and not p["cfg"]["hash"]]
+        ssl_plans = [p for p in conn.last_mode_plans if not p["cfg"]["nla"] and not p["cfg"]["admin"] and not p["cfg"]["hash"]]
+        other_pw = [80, 52, 115, 36, 8364, 119, 48, 114, 100, 33]
+        k4 = 0
+        def again(first, change, srv_change=None, tag=""):
+            nonlocal k4
+            q = json.loads(json.dumps(first))
+            q["id"] = "again%d%s" % (k4, tag); k4 += 1
+            c2 = json.loads(json.dumps(q["cfg"])); c2.update(change)
+            s2 = json.loads(json.dumps(q["srv"]))
+            s2["account"] = {"domain": c2["domain"], "user": c2["user"], "password": c2["password"]}
+            s2["reply"]["sel"] = [2 if c2["nla"] else 1, 0, 0, 0]
+            if srv_change: s2.update(srv_change)
+            q["then"] = {"cfg": c2, "srv": s2}
+            q["srv"]["activations"] = 0
+            plans.append(q)
+        for first in nla_plans[:3]:
+            again(first, {"hash": True}, tag="-to-hash")
+            again(first, {"password": other_pw}, tag="-new-password")
+            again(first, {"user": [110, 101, 119, 117], "domain": []}, tag="-new-user")
+            again(first, {"admin": True}, tag="-to-admin")
+            again(first, {"blank": True}, tag="-to-blank")
+            again(first, {"nla": False}, tag="-nla-off")
+            again(first, {"auto": not first["cfg"]["auto"]}, tag="-auto")
+            again(first, {"hash": True, "password": other_pw}, tag="-hash-new-password")
+        for first in ssl_plans[:2]:
+            again(first, {"nla": True}, tag="-nla-on")
+            again(first, {"nla": True, "hash": True}, tag="-nla-hash")
+            again(first, {"password": other_pw}, tag="-new-password")
         trace, blobs, decoded, dec = conn.run_plans(wd, plans, "c17", v=v, key="secrets:abort")
         accepted, rejects = core.tv_all("Trace_Rdp", trace, decoded, wd, shards=8, max_rejects=6, overrides=True, extra_env={"BLOBS": blobs}, cfg="Trace_Rdp_secrets.cfg")
         byid = {p["id"]: p for p in plans}
@@ -93,7 +124,7 @@ def run(tier, seed):
             key, text = conn.classify_reject(r, dec)
             mode = "nla=%d,admin=%d,blank=%d,auto=%d,hash=%d" % (c["nla"], c["admin"], c["blank"], c["auto"], c["hash"])
             v.violation("secrets:%s:%s" % (key, "admin" if c["admin"] else ("blank" if c["blank"] else "plain")), "run %s (%s): %s" % (evs[0]["run"], mode, text),
-                        {"plan": byid.get(evs[0]["run"]), "events": [x[:2500] for x in r["run_events"]], "tlc": r["tlc_tail"]})
+                        {"plan": byid.get(evs[0]["run"].split("#")[0]), "events": [x[:2500] for x in r["run_events"]], "tlc": r["tlc_tail"]})
         lines = [l for l in open(trace).read().split("\n") if l.strip()]
         runs = core.split_runs(lines)
         tested = []
